@@ -20,6 +20,12 @@ def box_replay(ck, box, only):
         s = ck.harness_output("box-replay-" + sp["flavour"], rc, out, err, only=only)
         ck.cov["cases_replayed"] += s.get("cases", 0)
         ck.cov["impl_checks"] += s.get("checks", 0)
+        # code -> spec: random boxes / coordinates abstracted to order relations
+        tr = ck.path("box-trace-%s.ndjson" % sp["flavour"])
+        rc, out, err = ck.run([b, "trace", str(ck.seed), "300" if ck.quick else "3000", tr], timeout=900)
+        s = ck.harness_output("box-trace-" + sp["flavour"], rc, out, err)
+        if rc == 0:
+            ck.validate_trace("Trace_Coord", "Trace_Coord.cfg", tr, only + "/random-order-relations-" + sp["flavour"], n_traces=1, n_events=s.get("events", 0))
     cs = vf.read_ndjson(box)
     ck.sample({"case": [c for c in cs if c["n"] == 2 and not c["inside"] and c["x"][0] == -100][3]})
     ck.bound("coordinate_types", ["int", "unsigned", "size_t", "float", "double"])
